@@ -31,6 +31,27 @@ pub fn run_cli(registry: fn() -> Vec<Box<dyn Check>>, selftest: fn() -> Result<(
         }
         return;
     }
+    if args[0] == "from-bytes" {
+        // vcheck from-bytes <ID> <libFuzzer artifact> : convert raw fuzz input into a replay file and run it
+        let id = args.get(1).cloned().unwrap_or_else(|| usage());
+        let path = args.get(2).cloned().unwrap_or_else(|| usage());
+        let bytes = std::fs::read(&path).unwrap_or_else(|e| {
+            eprintln!("cannot read {path}: {e}");
+            exit(2)
+        });
+        let check = find(registry(), &id);
+        let data = crate::fuzz::words(&bytes, check.entropy_len());
+        let mut obs = Obs { want_desc: true, ..Obs::default() };
+        let r = guarded_case(check.as_ref(), &data, &mut obs);
+        let (sig, msg) = match &r {
+            Ok(()) => ("none".to_string(), "holds without the sanitizer".to_string()),
+            Err(f) => (f.sig.clone(), f.msg.clone()),
+        };
+        let rp = write_replay(&id, &serde_json::json!({"property": id, "kind": "entropy", "entropy": data, "tier": "thorough", "seed": 0,
+            "signature": sig, "message": msg, "case": obs.desc, "source": format!("libFuzzer artifact {path}")}));
+        println!("replay={rp}");
+        exit(if r.is_err() { 1 } else { 0 });
+    }
     if args[0] == "replay" {
         let path = args.get(1).cloned().unwrap_or_else(|| usage());
         let text = std::fs::read_to_string(&path).unwrap_or_else(|e| {
